@@ -91,6 +91,7 @@ structure Bucket where
   time : Nat
   reqs : List (Nat × Nat)    -- contributors3: (rid, second it carried)
   secs : List Nat            -- seconds whose rows were merged into this bucket
+  joined : Nat               -- contributorsCount(): requests that ever joined (contributorsMetric; not reduced by CancelLongpoll)
 deriving DecidableEq, Repr
 
 structure Agg where
@@ -230,7 +231,7 @@ def reqOf (f : Flight) : Req := { rid := f.rid, sec := f.cbd.sec, historic := f.
 
 /-! ### aggregator -/
 
-def mkBucket (t : Nat) : Bucket := { time := t, reqs := [], secs := [] }
+def mkBucket (t : Nat) : Bucket := { time := t, reqs := [], secs := [], joined := 0 }
 
 def dropReady : Nat → Nat → Nat → List Bucket → List Bucket × List Bucket
   | 0, _, _, l => ([], l)
@@ -276,7 +277,7 @@ def aggDecide (historic : Bool) (t oldest newest w k : Nat) : Decision :=
     else if rounded < oldest then .answer false .lateRecent
     else .joinRecent (rounded - oldest)
 
-def park (b : Bucket) (rid sec : Nat) : Bucket := { b with reqs := b.reqs ++ [(rid, sec)], secs := b.secs ++ [sec] }
+def park (b : Bucket) (rid sec : Nat) : Bucket := { b with reqs := b.reqs ++ [(rid, sec)], secs := b.secs ++ [sec], joined := b.joined + 1 }
 
 def parkHistoric : List Bucket → Nat → Nat → List Bucket
   | [], rid, sec => [park (mkBucket sec) rid sec]
@@ -310,7 +311,7 @@ def takeHistoric : Nat → List Bucket → Nat → Nat → Nat → Nat → Batch
     | some m =>
       let hb := rest.filter (fun b => b.time == m)
       let rest' := rest.filter (fun b => b.time != m)
-      let hc := histContrib + (hb.map (fun b => b.reqs.length)).sum
+      let hc := histContrib + (hb.map (fun b => b.joined)).sum
       if hc + 2 > historyContributorsScale * recentContrib then
         { historic := rest', taken := hb, stale := stale }
       else
@@ -329,7 +330,7 @@ deriving DecidableEq, Repr
 /-- one iteration of goInsert for ready bucket `b` (no other inserter running) -/
 def insertOne (b : Bucket) (historic : List Bucket) (oldest w : Nat) (ok : Bool) : InsertOut :=
   let batch := if historic.isEmpty || insertHistoricWhen == 0 then { historic := historic, taken := [], stale := [] }
-               else takeHistoric maxHistoricBatch historic oldest w b.reqs.length 0
+               else takeHistoric maxHistoricBatch historic oldest w b.joined 0
   let all := b :: batch.taken
   let staleResps := (batch.stale.map (fun s => answersOf s true false .stale)).flatten
   let resps := (all.map (fun x => answersOf x ok (!ok) (if ok then .inserted else .insertFailed))).flatten
